@@ -1685,6 +1685,14 @@ def c19(ctx):
                             "-trace", os.path.join(dd, "T.ndjson"), "-report", os.path.join(dd, "rep.json")],
                            capture_output=True, text=True, timeout=600, env=env)
         if p.returncode != 0 or not os.path.exists(os.path.join(dd, "rep.json")):
+            fatal = re.search(r"fatal error: (concurrent map[^\n]*|all goroutines are asleep[^\n]*)", p.stderr)
+            if fatal or "WARNING: DATA RACE" in p.stderr:
+                # the Go runtime itself stopped the process: unsynchronised access inside the library (not recoverable)
+                where = [l.strip() for l in p.stderr.splitlines() if "/libvore/" in l][:4]
+                ctx.violations.append({"kind": "race", "sig": "runtime-fatal", "family": "C19-goroutines",
+                                       "detail": "the Go runtime stopped the concurrent run: %s %s" % (fatal.group(0) if fatal else "DATA RACE", " | ".join(where)),
+                                       "src": "", "text": None, "case": {"seed": ctx.seed * 100 + r, "round": r}})
+                return
             raise Undecided("concurrency run failed: " + p.stderr[-2000:])
         with open(os.path.join(dd, "rep.json")) as f:
             rep = json.load(f)
